@@ -970,6 +970,8 @@ static int create_vt(Fn fn, void *arg, const char *name)
   return id;
 }
 
+int next_vt_id() { return G.nvt; }
+
 int spawn(Fn fn, void *arg, const char *name)
 {
   VT *me = tl_vt;
